@@ -78,10 +78,7 @@ func (e *Engine) sod(t TimeV) *Term {
 }
 
 func (e *Engine) timeOffset(st *State, t TimeV) *Term {
-	if t.Loc == 1 {
-		return e.bv64(0)
-	}
-	return e.zone.offsetBV(st)
+	return e.tc.Ite(t.UTC, e.bv64(0), e.zone.offsetBV(st))
 }
 
 func (e *Engine) timeIsZero(st *State, t TimeV) *Term {
@@ -207,8 +204,12 @@ func (e *Engine) timeFormat(st *State, t TimeV, layout string) StrV {
 			two(t.S)
 		case "MST":
 			name := "UTC"
-			if t.Loc == 2 && e.opt.Zone >= 1 {
-				name = zoneName
+			if e.opt.Zone >= 1 {
+				if t.UTC.IsFalse() {
+					name = zoneName
+				} else if !t.UTC.IsTrue() {
+					return StrV{Opaque: true, Note: "zone abbreviation of a time whose location is symbolic"}
+				}
 			}
 			b = append(b, e.strConst(name).B...)
 		}
@@ -268,7 +269,7 @@ func (e *Engine) timeParse(st *State, layout string, s StrV, loc int, pos token.
 		// 8-bit arithmetic (value <= 99 whenever both are digits), then widened
 		return c.ZeroExt(c.BVAdd(c.BVMul(h, c.BV(10, 8)), l), 56)
 	}
-	t := TimeV{Y: e.bv64(0), M: e.bv64(1), D: e.bv64(1), H: e.bv64(0), Mi: e.bv64(0), S: e.bv64(0), Ns: e.bv64(0), Loc: loc}
+	t := TimeV{Y: e.bv64(0), M: e.bv64(1), D: e.bv64(1), H: e.bv64(0), Mi: e.bv64(0), S: e.bv64(0), Ns: e.bv64(0), UTC: e.tc.Bool(loc == 1)}
 	hasYear := false
 	i := 0
 	zoneOK := c.True
@@ -383,7 +384,7 @@ type civilAlt struct {
 // resolveCivil maps requested civil fields in a location to the time.Time Go would build
 // (identity for UTC and fixed-offset zones; gap/overlap handling for the two-interval zone view).
 func (e *Engine) resolveCivil(st *State, t TimeV, pos token.Pos) []civilAlt {
-	if t.Loc == 2 && e.opt.Zone == 2 {
+	if !t.UTC.IsTrue() && e.opt.Zone == 2 {
 		return e.resolveCivilZ2(st, t, pos)
 	}
 	return []civilAlt{{st, t}}
@@ -447,18 +448,24 @@ func init() {
 		return t
 	})
 	stubs["(time.Time).Location"] = stubTimeMethod(func(e *Engine, st *State, t TimeV, args []Value, pos token.Pos) Value {
-		return LocV{Kind: t.Loc}
+		if t.UTC.IsTrue() {
+			return LocV{Kind: 1}
+		}
+		if t.UTC.IsFalse() {
+			return LocV{Kind: 2}
+		}
+		panic(unsupported("Location of a time whose location is symbolic"))
 	})
 	stubs["(time.Time).In"] = stubTimeMethod(func(e *Engine, st *State, t TimeV, args []Value, pos token.Pos) Value {
 		l := args[0].(LocV)
-		if l.Kind == t.Loc {
+		if (l.Kind == 1 && t.UTC.IsTrue()) || (l.Kind == 2 && t.UTC.IsFalse()) {
 			return t
 		}
 		panic(unsupported("Time.In with a different location"))
 	})
 	stubs["(time.Time).Local"] = stubTimeMethod(func(e *Engine, st *State, t TimeV, args []Value, pos token.Pos) Value {
-		if t.Loc == 2 || e.opt.Zone == 0 {
-			t.Loc = 2
+		if t.UTC.IsFalse() || e.opt.Zone == 0 {
+			t.UTC = e.tc.False
 			return t
 		}
 		panic(unsupported("Time.Local of a UTC time under a symbolic zone"))
@@ -481,7 +488,7 @@ func init() {
 			e.reportPanic(st, e.tc.True, "time: missing Location in call to Date", pos)
 			return []exit{{st: st, kind: exitPanic, pmsg: "time.Date nil location"}}
 		}
-		t := TimeV{Y: args[0].(*Term), M: args[1].(*Term), D: args[2].(*Term), H: args[3].(*Term), Mi: args[4].(*Term), S: args[5].(*Term), Ns: args[6].(*Term), Loc: loc.Kind}
+		t := TimeV{Y: args[0].(*Term), M: args[1].(*Term), D: args[2].(*Term), H: args[3].(*Term), Mi: args[4].(*Term), S: args[5].(*Term), Ns: args[6].(*Term), UTC: e.tc.Bool(loc.Kind == 1)}
 		valid := e.validCivil(st, t)
 		if e.feasible(st, e.tc.Not(valid), "time.Date normalisation") {
 			panic(unsupported("time.Date with out-of-range fields (normalisation is outside the model); constrain the harness inputs"))
@@ -542,7 +549,7 @@ func (e *Engine) timeBefore(st *State, t, u TimeV) *Term {
 	if t.Inst != nil || u.Inst != nil {
 		panic(unsupported("comparison of an abstract instant with a civil time"))
 	}
-	if t.Loc != u.Loc && e.opt.Zone != 0 {
+	if t.UTC != u.UTC && e.opt.Zone != 0 {
 		panic(unsupported("comparison of times in different locations under a symbolic zone"))
 	}
 	// same offset: lexicographic on civil fields
@@ -569,7 +576,7 @@ func (e *Engine) timeNow(st *State) TimeV {
 		st.assume(c.BVSle(st.lastNow, t))
 	}
 	st.lastNow = t
-	return TimeV{Inst: t, Y: e.bv64(1), M: e.bv64(1), D: e.bv64(1), H: e.bv64(0), Mi: e.bv64(0), S: e.bv64(0), Ns: e.bv64(0), Loc: 2}
+	return TimeV{Inst: t, Y: e.bv64(1), M: e.bv64(1), D: e.bv64(1), H: e.bv64(0), Mi: e.bv64(0), S: e.bv64(0), Ns: e.bv64(0), UTC: e.tc.False}
 }
 
 func itoa(n int) string {
